@@ -23,7 +23,8 @@ from vlib.core import enc_list, enc_bool, dec_list, VERIF
 from harness import _dendro as dd
 
 RULE = ('all undirected graphs with at least one edge on n <= 4 nodes (quick; thorough n <= 5), n = 3 with self-loops, sampled '
-        'digraphs, structured weighted graphs n <= 12 (paths, cycles, stars, cliques, grids, blocks, two components, isolated '
+        'digraphs, 3 000 (thorough 40 000) random unweighted graphs on 7-9 nodes for Paris with degree weights (near-ties of heights), '
+        'structured weighted graphs n <= 12 (paths, cycles, stars, cliques, grids, blocks, two components, isolated '
         'nodes, self-loops, directed kinds), all biadjacency matrices up to 2x3 and random ones x {Paris(weights, reorder), '
         'LouvainHierarchy(resolution, shuffle), LouvainIteration(depth, resolution, shuffle)}; random nested trees for '
         'get_dendrogram; random valid dendrograms for reorder_dendrogram / split_dendrogram. A case is non-trivial when the '
@@ -373,6 +374,32 @@ def cases_for_graph(ctx, a, rng, full, force_bipartite=False):
     return out
 
 
+def near_tie_cases(ctx, rng, count):
+    """Paris(weights='degree') on random unweighted graphs with 7-9 nodes: only the validity of the result is
+    checked (one spec line per graph); every 20th graph also gets the full set of cases (chain run line)."""
+    from sknetwork.hierarchy import Paris
+    out = []
+    for k in range(count):
+        n = rng.choice([7, 8, 8, 8, 9])
+        p = rng.choice([0.3, 0.5, 0.7])
+        es = graphs.random_edges(rng, n, p, directed=False)
+        if not es:
+            continue
+        a = graphs.csr_from_edges(n, es, [1.0] * len(es))
+        reorder = rng.random() < 0.85
+        ctx.count('graph:near-tie hunt n=%d' % n)
+        if k % 20 == 0:
+            out += cases_paris(a, 'degree', reorder)
+            continue
+        alg = Paris(weights='degree', reorder=reorder)
+        st = _call(lambda: (alg.fit(a.copy()), 'ok')[1])
+        sig = {'entry': 'Paris', 'weights': 'degree', 'reorder': reorder, 'bipartite': False}
+        desc = {'f': 'Paris', 'graph': _gdesc(a), 'weights': 'degree', 'reorder': reorder, 'force_bipartite': False}
+        key = ('paris-hunt', json.dumps(desc['graph']), reorder)
+        out += _out_cases('Paris', None, a, alg, st, reorder, key, sig, desc, False, True)
+    return out
+
+
 def corpus_cases(ctx):
     p = os.path.join(VERIF, 'corpus', 'C07.jsonl')
     out = []
@@ -457,6 +484,9 @@ def build_cases(ctx):
             continue
         cases += cases_for_graph(ctx, a, rng, full=False)
         ctx.count('graph:' + name.rstrip('0123456789'))
+    # near-ties: unweighted graphs on 7-9 nodes make many merges of equal height; the float32 similarities of
+    # Paris then order a parent and its child by rounding noise (spec lines only: validity of dendrogram_)
+    cases += near_tie_cases(ctx, rng, 3000 if quick else 40000)
     # bipartite
     shapes = [(1, 2), (2, 1), (2, 2), (2, 3)] + ([] if quick else [(3, 2), (3, 3), (1, 3)])
     for nr, nc in shapes:
